@@ -2,5 +2,5 @@
 
 package p384
 
-// c14Backend: p384_generic.go is compiled, P384() wraps crypto/elliptic.P384().
-func c14Backend() string { return "generic" }
+// p384_generic.go is compiled: P384() wraps crypto/elliptic.P384().
+func init() { C14ReadBackend = func() string { return "generic" } }
